@@ -580,6 +580,10 @@ class Analysis:
                         elif l not in info.result_locals or any(isinstance(e, dict) and e.get("n") == "Ready" for e in p["p"]) is False:
                             if not (l in info.result_locals and l in env):
                                 env.pop(l, None)
+                elif rv["k"] == "ref" and not rv["place"]["p"] and rv["place"]["l"] in env and not rv.get("mut"):
+                    env[l] = env[rv["place"]["l"]]       # `&result` handed to `is_err()`
+                elif rv["k"] == "unop" and rv["op"] == "Not" and env.get(op_local(rv["a"])) in (("#true",), ("#false",)):
+                    env[l] = ("#false",) if env[op_local(rv["a"])] == ("#true",) else ("#true",)
                 else:
                     env.pop(l, None)
             t = blk["t"]
@@ -719,6 +723,12 @@ class Analysis:
         elif n & {"core::result::Result::map_err", "core::result::Result::map", "core::option::Option::map", "core::convert::Into::into",
                   "core::convert::From::from"} and a0:
             out = a0
+        elif a0 and a0[0] in ("Ok", "Err", "Some", "None") and any(x.rsplit("::", 1)[-1] in ("is_some", "is_none", "is_ok", "is_err")
+                                                                    and ("Option" in x or "Result" in x) for x in n):
+            # `helper(..).await.is_err()`: the boolean is carried as a pseudo-variant and decides the switch on it
+            short = next(x.rsplit("::", 1)[-1] for x in n if x.rsplit("::", 1)[-1] in ("is_some", "is_none", "is_ok", "is_err"))
+            truth = {"is_some": a0[0] == "Some", "is_none": a0[0] == "None", "is_ok": a0[0] == "Ok", "is_err": a0[0] == "Err"}[short]
+            out = ("#true",) if truth else ("#false",)
         if out is not None:
             env[dst] = out
         else:
@@ -738,6 +748,10 @@ class Analysis:
                 all_t.append(x)
         if t["otherwise"] not in all_t:
             all_t.append(t["otherwise"])
+        if d is None and dl is not None and env.get(dl) in (("#true",), ("#false",)):
+            val = 1 if env[dl] == ("#true",) else 0
+            hit = [x for v, x in t["targets"] if v == val]
+            return [(hit[0] if hit else t["otherwise"], st)]
         if d is None or not d.get("enum"):
             return [(x, st) for x in all_t]
         place = d["place"]
